@@ -7,7 +7,7 @@
 #define VERIF_TOKENS_H
 typedef long V_tok;
 #define V_TMAX (1L << 61)
-#define V_NREG 8
+#define V_NREG 16
 const void *V_rk[V_NREG]; V_tok V_rv[V_NREG]; int V_rn;
 _Bool g_div0_expected;      /* set by the harness: a zero divisor reaches the division */
 _Bool g_err_expected;
@@ -18,12 +18,14 @@ static int V_find (const void *p)
       return i;
   return -1;
 }
+/* The registry holds the MAGNITUDE; the sign is the sign of SIZ.  Glue code that flips or clears a sign by writing
+   _mp_size directly (mpq_div, mpq_canonicalize) is therefore followed exactly. */
 static V_tok V_val (mpz_srcptr x)
 {
   int i = V_find (x);
   __CPROVER_assert (i >= 0, "[C05] operand read by the glue holds a value (initialised object)");
   if (i < 0) { __CPROVER_assume (0); }
-  return V_rv[i];
+  return x->_mp_size > 0 ? V_rv[i] : (x->_mp_size < 0 ? -V_rv[i] : 0);
 }
 static void V_setval (mpz_ptr x, V_tok v)
 {
@@ -34,10 +36,17 @@ static void V_setval (mpz_ptr x, V_tok v)
       i = V_rn++;
       V_rk[i] = x;
     }
-  V_rv[i] = v;
-  int s = nondet_int ();                                   /* abstract magnitude: only sign/zero of SIZ is tied to the value */
+  V_rv[i] = v < 0 ? -v : v;
+  int s = nondet_int ();                                   /* abstract magnitude: only sign/zero of SIZ is tied to the value ... */
   __CPROVER_assume ((v == 0) == (s == 0) && (v > 0) == (s > 0) && s > -1000 && s < 1000);
+  if (v == 1 || v == -1) s = (int) v;                      /* ... except +-1, which the glue recognises by SIZ == 1 && limb0 == 1 */
   x->_mp_size = s;
+  if (s == 1 || s == -1)
+    {
+      mp_limb_t l0 = nondet_ulong ();
+      __CPROVER_assume ((l0 == 1) == (v == 1 || v == -1));
+      x->_mp_d[0] = l0;
+    }
 }
 #define V_INRANGE(v) (-V_TMAX < (v) && (v) < V_TMAX)
 V_tok __CPROVER_uninterpreted_tdivq (V_tok, V_tok);
@@ -94,4 +103,47 @@ void __gmpz_add_ui (mpz_ptr w, mpz_srcptr u, mpir_ui k) { __CPROVER_assume (k < 
 void __gmpz_sub_ui (mpz_ptr w, mpz_srcptr u, mpir_ui k) { __CPROVER_assume (k < 1000); V_tok t = V_val (u) - (V_tok) k; V_setval (w, t); }
 void __gmpz_neg (mpz_ptr w, mpz_srcptr u) { V_tok t = -V_val (u); V_setval (w, t); }
 void __gmpz_abs (mpz_ptr w, mpz_srcptr u) { V_tok t = V_val (u); V_setval (w, t < 0 ? -t : t); }
+
+/* ---- heavy callees of the mpq arithmetic, ASSUMED, on magnitudes (so that a sign flip commutes): symmetric gcd and product,
+   exact quotient; with the sign/zero/unit facts the manual gives */
+V_tok __CPROVER_uninterpreted_gcdm (V_tok, V_tok);
+V_tok __CPROVER_uninterpreted_mulm (V_tok, V_tok);
+V_tok __CPROVER_uninterpreted_divxm (V_tok, V_tok);
+#define V_AB(v)   ((v) < 0 ? -(v) : (v))
+#define V_MN(a,b) ((a) < (b) ? (a) : (b))
+#define V_MX(a,b) ((a) < (b) ? (b) : (a))
+static V_tok V_GCD (V_tok a, V_tok b)
+{
+  a = V_AB (a); b = V_AB (b);
+  if (a == 0) return b;
+  if (b == 0) return a;
+  if (a == b) return a;
+  V_tok g = __CPROVER_uninterpreted_gcdm (V_MN (a, b), V_MX (a, b));
+  __CPROVER_assume (1 <= g && g <= V_MN (a, b) && ((a == 1 || b == 1) ==> g == 1));
+  return g;
+}
+static V_tok V_MUL (V_tok a, V_tok b)
+{
+  V_tok ma = V_AB (a), mb = V_AB (b), m;
+  if (ma == 0 || mb == 0) return 0;
+  if (ma == 1) m = mb; else if (mb == 1) m = ma;
+  else { m = __CPROVER_uninterpreted_mulm (V_MN (ma, mb), V_MX (ma, mb)); __CPROVER_assume (2 <= m && m < V_TMAX); }
+  return ((a < 0) != (b < 0)) ? -m : m;
+}
+static V_tok V_DIVX (V_tok a, V_tok d)          /* a / d for d > 0 dividing a */
+{
+  V_tok ma = V_AB (a), m;
+  __CPROVER_assert (d > 0, "[C12] exact division by a positive divisor (a gcd)");
+  if (ma == 0) return 0;
+  if (d == 1) m = ma; else if (d == ma) m = 1;
+  else { m = __CPROVER_uninterpreted_divxm (ma, d); __CPROVER_assume (1 <= m && m <= ma); }
+  return a < 0 ? -m : m;
+}
+void __gmpz_gcd (mpz_ptr g, mpz_srcptr a, mpz_srcptr b) { V_tok t = V_GCD (V_val (a), V_val (b)); V_setval (g, t); }
+void __gmpz_divexact_gcd (mpz_ptr q, mpz_srcptr a, mpz_srcptr d) { V_tok t = V_DIVX (V_val (a), V_val (d)); V_setval (q, t); }
+void __gmpz_mul (mpz_ptr w, mpz_srcptr u, mpz_srcptr v) { V_tok t = V_MUL (V_val (u), V_val (v)); V_setval (w, t); }
+/* temporaries: one limb of storage (the limb contents are abstract), value 0, released by mpz_clear (leak check) */
+void __gmpz_init (mpz_ptr x) { x->_mp_alloc = 1; x->_mp_d = malloc (8); __CPROVER_assume (x->_mp_d != (void *) 0); V_setval (x, 0); }
+void free (void *);
+void __gmpz_clear (mpz_ptr x) { free (x->_mp_d); x->_mp_d = (void *) 0; }
 #endif
